@@ -107,7 +107,15 @@ class BaseSection(base.Sectionable):
         # set up must not end up in the parents child list.
         self.parent = parent
 
-        for err in validation.Validation(self).errors:
+        try:
+            issues = validation.Validation(self).errors
+        except Exception:
+            # The same goes for a Section a validation rule cannot deal with.
+            if self._parent is not None:
+                self._parent.remove(self)
+            raise
+
+        for err in issues:
             if err.is_error:
                 use_name = err.obj.name if err.obj.id != err.obj.name else None
                 sec_formatted = "Section[id=%s|%s/%s]" % (err.obj.id, use_name, err.obj.type)
